@@ -50,6 +50,7 @@ type HooksCaller struct {
 }
 
 func runHook(executeable, store string) {
+	verifEvent("hooks.exec", executeable, 0, 0)
 	wdl.Printf("Hooks: calling '%s'", executeable)
 
 	cmd := exec.Command(executeable, "update")
@@ -76,6 +77,7 @@ func runHook(executeable, store string) {
 			select {
 			case <-t.C:
 				wl.Printf("Hooks: killing long running hook '%s'", executeable)
+				verifEvent("hooks.kill", executeable, 0, 0)
 				cmd.Process.Kill() //nolint:errcheck
 			case err := <-exited:
 				if err != nil {
@@ -90,6 +92,7 @@ func runHook(executeable, store string) {
 }
 
 func (h *HooksCaller) runAllHooks() {
+	verifEvent("hooks.round", h.store, int(h.pending), 0)
 	dir, err := os.Open(h.dir)
 	if err != nil {
 		wl.Printf("Hooks: error opening hooks directory: %v", err)
@@ -139,6 +142,7 @@ func (h *HooksCaller) run() {
 		for {
 			select {
 			case <-h.Notify:
+				verifEvent("hooks.notify", "", -1, 0)
 			case <-h.NewStore:
 			}
 		}
@@ -149,17 +153,20 @@ func (h *HooksCaller) run() {
 	for {
 		select {
 		case <-t.C:
+			verifEvent("hooks.timer", "", int(h.pending), 0)
 			if h.pending > 1 {
 				h.runAllHooks()
 			}
 			h.pending = 0
 		case <-h.Notify:
+			verifEvent("hooks.notify", "", int(h.pending), 0)
 			if h.pending == 0 {
 				h.runAllHooks()
 				t.Reset(h.rateLimit)
 			}
 			h.pending++
 		case s := <-h.NewStore:
+			verifEvent("hooks.newstore", s, 0, 0)
 			h.store = s
 		}
 	}
